@@ -551,6 +551,10 @@ class TensorDictParams(TensorDictBase, nn.Module):
         #     input_dict_or_td = input_dict_or_td.apply(func)
         # else:
         #     input_dict_or_td = tree_map(func, input_dict_or_td)
+        if self.is_locked and not ignore_lock:
+            # lock_blocked lets inplace=True through, but the update below runs on a temporarily
+            # unlocked content: under lock it would add entries to the nested tensordicts
+            raise RuntimeError(_LOCK_ERROR)
         with self._param_td.unlock_():
             TensorDictBase.update(
                 self,
